@@ -57,6 +57,9 @@ func PairBases() []Base {
 		{"traversal-splat", "a = foo.objs[*].id\nb = foo.objs.*.id\nc = foo.objs[*]\nd = foo.objs[*].name[0]\n"},
 		{"traversal-on-expr", "a = (foo).bar\nb = f(1)[0]\nc = f(foo).0.bar\nd = [1, 2][0]\ne = { x = 1 }.x\nf = l[0][1]\ng = foo[\"objs\"][0][\"id\"]\n"},
 		{"number-dot", "a = 1 .x\nb = [1 . 5]\nc = 1 .e5x\n"},
+		{"number-dot-signed-exponent", "a = 1 .e-5\nb = [b.0 .e-7]\nc = 2 .E-1x\nd = 3 .e+1\n"},
+		{"traversal-splat-legacy-index", "a = foo.objs.*.name.0\nb = foo.objs.*.0\nc = foo.objs.*.id.0.x\nd = [foo.objs.*.name.0, 1]\n"},
+		{"template-strip-mixed", "a = \"${c}-${~ c ~}-${c ~}\"\nb = \"%{ if t }x%{~ endif }%{ if t ~}y%{ endif ~}\"\nc = \"${~ c}\"\n"},
 		// --- calls
 		{"calls", "a = f()\nb = f(1)\nc = f(1, 2)\nd = f(l...)\ne = ns::f(1)\ng = f(1, l...)\nh = f(1, 2, )\n"},
 		{"call-number-ellipsis", "a = f(1 ...)\nb = f(b.0 ...)\n"},
@@ -130,6 +133,7 @@ func Shapes() []Shape {
 		{"index-str", "foo[\"k\"]"}, {"index-num", "l[0]"}, {"index-bool", "m[true]"}, {"index-null", "m[null]"},
 		{"legacy-index", "b.0"}, {"legacy-index-attr", "foo.objs.0.name"}, {"legacy-index-chain", "b.0 .1"},
 		{"splat-full", "foo.objs[*].name"}, {"splat-attr", "foo.objs.*.name"}, {"splat-bare", "foo.objs[*]"},
+		{"splat-attr-legacy-index", "foo.objs.*.name.0"}, {"splat-full-index", "foo.objs[*].name[0]"}, {"number-dot-signed-exp", "1 .e-5"},
 		{"paren-source", "(foo).bar"}, {"call-source-attr", "f(foo).0.bar"}, {"call-source-index", "f(l)[0]"},
 		{"index-computed", "l[a - 4]"}, {"index-var", "foo[c]"}, {"index-template", "foo[\"${c}\"]"},
 		{"index-mixed", "foo[\"objs\"][0].name"},
